@@ -14,8 +14,8 @@ from typing import Any
 from mc import spec as S
 
 MAXC = {'O': 2, 'O5': 1, 'AX': 2, 'ZN': 2, 'LN': 1, 'CH': 3, 'CHS': 1, 'FR': 2, 'PA': 2, 'TO': 1, 'GR': 2, 'NF': 1,
-        'ZN2': 1, 'CP': 1, 'SP': 1, 'PT': 1, 'CA': 1, 'PR': 1, 'EQ': 1, 'WR': 1, 'AXY': 1, 'ZNE': 1, 'OS': 1}
-QUICK_EVENTS = ['O', 'O5', 'AX', 'ZN', 'LN', 'CH', 'CHS', 'FR', 'PA', 'TO', 'GR', 'NF', 'ZN2']
+        'ZN2': 1, 'CP': 1, 'SP': 1, 'PT': 1, 'CA': 1, 'PR': 1, 'EQ': 1, 'WR': 1, 'AXY': 1, 'ZNE': 1, 'OS': 1, 'O0': 1}
+QUICK_EVENTS = ['O', 'O5', 'O0', 'AX', 'ZN', 'LN', 'CH', 'CHS', 'FR', 'PA', 'TO', 'GR', 'NF', 'ZN2']
 THOROUGH_EVENTS = QUICK_EVENTS + ['CP', 'SP', 'PT', 'CA', 'PR', 'EQ', 'WR', 'AXY']
 
 
@@ -26,7 +26,7 @@ def count(hist: list, ev: str) -> int:
 def enabled_events(hist: list, tier: str, events: list = None) -> list:
     evs = events if events is not None else (QUICK_EVENTS if tier == 'quick' else THOROUGH_EVENTS)
     out = []
-    n_origin = count(hist, 'O') + count(hist, 'O5') + count(hist, 'OS')
+    n_origin = count(hist, 'O') + count(hist, 'O5') + count(hist, 'OS') + count(hist, 'O0')
     n_ch = count(hist, 'CH') + count(hist, 'CHS')
     for e in evs:
         if count(hist, e) >= MAXC[e]:
@@ -100,8 +100,10 @@ def to_spec(hist: list, complete: bool = True, vrl: int = 8192) -> dict:
     second_origin_ref = None
     origin_refs: list[int] = []
     for e in hist:
-        if e in ('O', 'O5', 'OS'):
-            kw = {'origin_reference': 5} if e == 'O5' else {'set_name': 'S'} if e == 'OS' else {}     # OS: a second, named ORIGIN set
+        if e in ('O', 'O5', 'OS', 'O0'):
+            # OS: a second, named ORIGIN set; O0: reference 0 requested explicitly (0 means "choose one", like None)
+            kw = {'origin_reference': 5} if e == 'O5' else {'set_name': 'S'} if e == 'OS' else \
+                {'origin_reference': 0} if e == 'O0' else {}
             ops.append(S.op_origin(h('origin'), 'X', **kw))
             # mirror of the documented numbering, needed only to pick an *existing* second origin reference below
             if e == 'O5':
